@@ -31,6 +31,12 @@ fn args_map(args: &[String]) -> HashMap<String, String> {
 }
 
 fn main() {
+    // a runaway allocation in the code under test must fail fast, not take
+    // the machine down
+    unsafe {
+        let lim = libc::rlimit { rlim_cur: 12 << 30, rlim_max: 12 << 30 };
+        libc::setrlimit(libc::RLIMIT_AS, &lim);
+    }
     let args: Vec<String> = std::env::args().collect();
     if args.len() < 2 {
         eprintln!("usage: acverif <dump|...> [--key value]...");
